@@ -45,12 +45,46 @@ pub fn exec(t: &[&str]) -> Option<String> {
                     if *d == "Monero" && format!("{}", a) != s { return Some("MISMATCH Display vs to_string_with_denomination".into()); } Some(hex(s.as_bytes())) }
                 _ => None }
         }
+        // `Display` of both amount types (the denomination is hard-wired to Monero in the library)
+        ["c15_display", ty, a] => match *ty {
+            "u" => Some(hex(format!("{}", Amount::from_pico(a.parse::<u64>().ok()?)).as_bytes())),
+            "s" => Some(hex(format!("{}", SignedAmount::from_pico(a.parse::<i64>().ok()?)).as_bytes())),
+            _ => None },
+        // `Denomination::from_str` alone: the name of the denomination, or `err`
+        ["c15_denom", h] => {
+            let b = unhex(h);
+            let s = match std::str::from_utf8(&b) { Ok(s) => s, Err(_) => return Some("bad-utf8".into()) };
+            Some(match Denomination::from_str(s) { Ok(d) => DENOMS.iter().find(|x| x.1 == d).map(|x| x.0.to_string()).unwrap_or_else(|| "MISMATCH a denomination outside the five modelled ones".into()), Err(_) => "err".into() })
+        }
         _ => None,
     }
 }
 
 /// the string behind a formatting result (empty if the implementation panicked, so that the direct checks fail instead of the run)
 fn text_of(h: &str) -> String { if h == "-" { String::new() } else { hex::decode(h).ok().and_then(|b| String::from_utf8(b).ok()).unwrap_or_default() } }
+
+/// Value-preserving rewrites of a formatted amount `s` (= `to_string_in(a, d)`, `dec` fraction digits): each must parse back to `want`
+/// (`Some(a)` when |a| <= 2^63-1, otherwise `None`), and one digit more than the denomination allows must be refused.
+fn metamorphic(o: &mut Out, s: &str, dec: usize, want: Option<i128>, id: &str, parse: &dyn Fn(&str) -> Result<Option<i128>, String>) {
+    if s.is_empty() { return; }
+    let (sign, body) = match s.strip_prefix('-') { Some(b) => ("-", b), None => ("", s) };
+    let mut vars: Vec<(String, &str, Option<i128>)> = vec![];
+    if s.len() + 3 <= 50 { vars.push((format!("{}000{}", sign, body), "three leading zeros", want)); }
+    if let Some((ip, fp)) = body.split_once('.') {
+        let t = fp.trim_end_matches('0');
+        vars.push((format!("{}{}.{}", sign, ip, t), "trailing fraction zeros stripped (point kept)", want));
+        if t.is_empty() { vars.push((format!("{}{}", sign, ip), "zero fraction and point dropped", want)); }
+        if ip == "0" { vars.push((format!("{}.{}", sign, fp), "no digit before the point", want)); }
+        if fp.len() == dec && s.len() < 50 { vars.push((format!("{}0", s), "one fraction digit more than the denomination has (a zero)", None)); vars.push((format!("{}5", s), "one fraction digit more than the denomination has", None)); }
+    } else {
+        vars.push((format!("{}.", s), "bare trailing point", want));
+        if dec == 0 { vars.push((format!("{}.0", s), "a fraction digit in a denomination without decimals", None)); }
+    }
+    for (v, what, w) in vars {
+        let got = parse(&v);
+        o.direct(got == Ok(w), &format!("rewrite of a formatted amount: {}", what), format!("{} via {:?}", id, v), format!("{:?}", got), format!("{:?}", w));
+    }
+}
 
 fn digit_string(rng: &mut Rng, n: usize, zero_bias: u64) -> String {
     (0..n).map(|_| if rng.chance(zero_bias, 10) { '0' } else { (b'0' + rng.below(10) as u8) as char }).collect()
@@ -189,12 +223,13 @@ pub fn run(o: &mut Out, tier: &str, seed: u64) {
     // formatting: boundary set and random values; round trips checked directly
     let mut us: Vec<u64> = vec![0, 1, 2, 9, 10, 11, 99, 100, 101, u64::MAX, u64::MAX - 1, i64::MAX as u64, i64::MAX as u64 + 1, i64::MAX as u64 - 1, i64::MAX as u64 + 2];
     let mut p: u64 = 1; for _ in 0..19 { p *= 10; us.extend_from_slice(&[p - 1, p, p + 1, p / 10 * 9, (p / 10).wrapping_mul(11)]); }
+    let n_boundary_us = us.len();                 // every value pushed so far is a stated boundary value; all of them are run on every denomination
     for _ in 0..n_fmt { us.push(match rng.below(3) { 0 => rng.u64_boundary(), 1 => { let w = rng.below(64); rng.next() >> w } _ => { let k = rng.below(20) as u32; (rng.below(1000) as u64).wrapping_mul(10u64.pow(k)).wrapping_add(rng.below(3)).wrapping_sub(1) } }); }
     let mut ss: Vec<i64> = vec![i64::MIN, i64::MIN + 1, i64::MIN + 2, i64::MAX, -1, -9, -10, -11, -999_999_999_999, -1_000_000_000_000, -1_000_000_000_001];
     for &u in &us { ss.push(u as i64); ss.push((u as i64).wrapping_neg()); }
     for (i, &a) in us.iter().enumerate() {
         for (dn, d, dec) in DENOMS.iter() {
-            if i >= 120 && !rng.chance(2, 5) { continue; }
+            if i >= n_boundary_us && !rng.chance(2, 5) { continue; }
             let h = o.op(format!("c15_fmt u {} {}", dn, a), true); let hd = o.op(format!("c15_fmt_denom u {} {}", dn, a), true);
             o.stat(&format!("fmt.u.{}", dn));
             let (s, sd) = (text_of(&h), text_of(&hd));
@@ -206,11 +241,18 @@ pub fn run(o: &mut Out, tier: &str, seed: u64) {
             // shape: exactly `dec` fraction digits
             let frac = s.split('.').nth(1).map(|f| f.len()).unwrap_or(0);
             o.direct(frac == *dec && (s.contains('.') == (*dec > 0)), "exactly `decimals` fraction digits", format!("{} {}", dn, a), s.clone(), format!("{} fraction digits", dec));
+            let dd = *d; metamorphic(o, &s, *dec, want.map(|x| x as i128), &format!("u {} {}", dn, a), &move |v: &str| { let v = v.to_string(); guarded(move || Amount::from_str_in(&v, dd).ok().map(|x| x.as_pico() as i128)) });
+        }
+        if i < n_boundary_us || rng.chance(1, 4) {
+            let h = o.op(format!("c15_display u {}", a), true); let sd = text_of(&h);
+            let got = guarded(move || Amount::from_str(&sd).ok().map(|x| x.as_pico()));
+            let want = if a <= i64::MAX as u64 { Some(a) } else { None };
+            o.direct(got == Ok(want), "parse(Display a) == a (unsigned)", a.to_string(), format!("{:?}", got), format!("{:?}", want));
         }
     }
     for (i, &a) in ss.iter().enumerate() {
         for (dn, d, dec) in DENOMS.iter() {
-            if i >= 120 && !rng.chance(1, 5) { continue; }
+            if i >= 11 + 2 * n_boundary_us && !rng.chance(1, 5) { continue; }
             let h = o.op(format!("c15_fmt s {} {}", dn, a), true); let hd = o.op(format!("c15_fmt_denom s {} {}", dn, a), true);
             o.stat(&format!("fmt.s.{}", dn));
             let (s, sd) = (text_of(&h), text_of(&hd));
@@ -221,7 +263,51 @@ pub fn run(o: &mut Out, tier: &str, seed: u64) {
             o.direct(got == Ok(want), "parse(format_with_suffix a) == a (signed)", format!("{} {}", dn, a), format!("{:?} via {:?}", got, sd), format!("{:?}", want));
             let frac = s.split('.').nth(1).map(|f| f.len()).unwrap_or(0);
             o.direct(frac == *dec && (s.contains('.') == (*dec > 0)), "exactly `decimals` fraction digits", format!("{} {}", dn, a), s.clone(), format!("{} fraction digits", dec));
+            let dd = *d; metamorphic(o, &s, *dec, want.map(|x| x as i128), &format!("s {} {}", dn, a), &move |v: &str| { let v = v.to_string(); guarded(move || SignedAmount::from_str_in(&v, dd).ok().map(|x| x.as_pico() as i128)) });
+        }
+        if i < 11 + 2 * n_boundary_us || rng.chance(1, 4) {
+            let h = o.op(format!("c15_display s {}", a), true); let sd = text_of(&h);
+            let got = guarded(move || SignedAmount::from_str(&sd).ok().map(|x| x.as_pico()));
+            let want = if a != i64::MIN { Some(a) } else { None };
+            o.direct(got == Ok(want), "parse(Display a) == a (signed)", a.to_string(), format!("{:?}", got), format!("{:?}", want));
         }
     }
+    // ---- added (audit C15 §4b/§4d, §5.2, §5.4) ---------------------------------------------------------------------------------
+    // deterministic suffix family: every special / cap / magnitude / prefix literal x every accepted spelling x {u, s} through
+    // `from_str_with_denomination` = `FromStr`, so that the 50-byte cap (on the literal, not on the whole string) and the 2^63 / 2^64
+    // boundaries are exercised through the suffix entry points on every run
+    let mut n_suffix = 0usize;
+    for (lit, class) in lits.iter() {
+        if !["special", "cap", "magnitude", "prefix"].contains(class) { continue; }
+        for name in NAMES.iter() { for ty in ["u", "s"] {
+            let r = o.op(format!("c15_parse_denom {} {}", ty, hex(format!("{} {}", lit, name).as_bytes())), true);
+            o.stat(&format!("denom.systematic.{}.{}", class, if r.starts_with("ok") { "ok" } else { "err" })); n_suffix += 1;
+        } }
+    }
+    // near-names: every accepted spelling with one edit, alone (`Denomination::from_str`) and behind the literal "1" for both types,
+    // so that the outcome depends on the name only
+    let mut near: Vec<String> = Vec::new();
+    for name in NAMES.iter() {
+        let cs: Vec<char> = name.chars().collect();
+        near.push(name.to_string());
+        for i in 0..cs.len() {
+            let flip: String = cs.iter().enumerate().map(|(j, &c)| if j != i { c.to_string() } else if c.is_uppercase() { c.to_lowercase().to_string() } else { c.to_uppercase().to_string() }).collect(); near.push(flip);
+            near.push(cs.iter().enumerate().filter(|(j, _)| *j != i).map(|(_, c)| *c).collect());                                 // delete
+            near.push(cs.iter().enumerate().flat_map(|(j, &c)| if j == i { vec![c, c] } else { vec![c] }).collect());            // duplicate
+            if i >= 3 { near.push(cs[..i].iter().collect()); }                                                                     // proper prefix of length >= 3
+        }
+        for suf in ["s", " ", "\n", "\t", "\0", "."] { near.push(format!("{}{}", name, suf)); }
+        near.push(format!(" {}", name)); near.push(name.to_uppercase()); near.push(name.to_lowercase());
+    }
+    for x in ["picoXMR", "nanoXMR", "microXMR", "milliXMR", "uXMR", "kXMR", "nano", "milli", "micro", "pico", "xmrs", "XMRs", "moneros", "Monero", "Millinero", "Micronero", "Nanonero", "Piconero", "μXMR", "µxmr", "mcxmr", ""] { near.push(x.to_string()); }
+    let mut seen = std::collections::HashSet::new(); near.retain(|x| seen.insert(x.clone()));
+    for n in &near {
+        let r = o.op(format!("c15_denom {}", hex(n.as_bytes())), true); o.stat(&format!("nearname.{}", if r == "err" { "err" } else { "ok" }));
+        if !n.contains(' ') { for ty in ["u", "s"] {
+            let r2 = o.op(format!("c15_parse_denom {} {}", ty, hex(format!("1 {}", n).as_bytes())), true);
+            o.direct((r == "err") == (r2 == "err"), "`1 <name>` is accepted iff <name> is a denomination", format!("{:?}", n), format!("{} / {}", r, r2), "both ok or both err".into());
+        } }
+    }
+    o.notes.push(format!("added: {} systematic `<literal> <spelling>` suffix cases, {} near-name strings (alone and behind the literal 1), Display of every boundary value, value-preserving rewrites of every formatted string checked directly; signed and unsigned boundary sets are now run completely", n_suffix, near.len()));
     o.notes.push(format!("{} literals + {} junk strings x 5 denominations x {{u,s}}; {} suffix strings x {{u,s}}; formatting on {} unsigned / {} signed values (boundary set complete, random part sampled per denomination); non-trivial = grammatical literal or a single mutation of one (parse), every suffix / formatting case", lits.len(), junks.len(), n_denom, us.len(), ss.len()));
 }
